@@ -3,13 +3,13 @@ from pyvc.api import contract
 
 _EXP_REQ = [("inv", "inv_bloom_mem(self)"), ("counters_fit_uint64", "0 <= self._est_elements < 2**64 and 0 <= self._els_added < 2**64")]
 
-contract("BloomFilter.export", contexts=["BloomFilter"], properties=["C05", "C06", "C19"],
+contract("BloomFilter.export", contexts=["BloomFilter"], properties=["C05", "C06", "C19", "C01"],
          params={"file": "stream"}, requires=_EXP_REQ, modifies=["file"],
          ensures=[("appends_exactly_cells_plus_footer", "len(written(file)) == old(len(written(file))) + len(self._bloom) + 20"),
                   ("earlier_bytes_kept", "all(written(file)[i] == old(written(file))[i] for i in range(0, old(len(written(file)))))"),
                   ("documented_layout", "bloom_image(self, written(file), old(len(written(file))))")])
 
-contract("BloomFilter.__bytes__", contexts=["BloomFilter"], properties=["C05", "C06", "C19"],
+contract("BloomFilter.__bytes__", contexts=["BloomFilter"], properties=["C05", "C06", "C19", "C01"],
          returns="bytes", requires=_EXP_REQ, modifies=[],
          ensures=[("size", "len(result) == len(self._bloom) + 20"), ("documented_layout", "bloom_image(self, result, 0)")])
 
@@ -17,7 +17,7 @@ _GEOM_OK = ("0 < f32_at(d, 16) < 1 and le_bytes(d, 0, 8) >= 1 and "
             "bloom_k(le_bytes(d, 0, 8), bloom_m(le_bytes(d, 0, 8), f32_at(d, 16))) >= 1")
 
 contract("BloomFilter._parse_footer", kind="classmethod", contexts=["BloomFilter", "CountingBloomFilter"],
-         properties=["C05", "C06"],
+         properties=["C05", "C06", "C01"],
          params={"stct": "struct:QQf", "d": "bytes"}, returns="tuple[int,int,float,int,int]",
          requires=[("twenty_bytes", "len(d) >= 20"), ("stored_geometry_usable", _GEOM_OK)],
          modifies=[],
@@ -43,20 +43,20 @@ _LOADED = [("estimated_elements", "self._est_elements == le_bytes(file, len(file
            ("hash_function_kept_or_default",
             "self._hash_func == (hash_function if hash_function is not None else default_fnv_1a)")]
 
-contract("BloomFilter._load", contexts=["BloomFilter"], properties=["C05", "C06"],
+contract("BloomFilter._load", contexts=["BloomFilter"], properties=["C05", "C06", "C01"],
          params={"file": "bytes", "hash_function": "opt[hashfunc]"}, variants=[{"file": "mmap"}],
          requires=_LOAD_REQ,
          modifies=["self._est_elements", "self._fpr", "self._bloom_length", "self._hash_func", "self._els_added",
                    "self._number_hashes", "self._num_bits", "self._bloom"],
          ensures=_LOADED)
 
-contract("BloomFilter._parse_bloom_array", contexts=["BloomFilter"], properties=["C05"],
+contract("BloomFilter._parse_bloom_array", contexts=["BloomFilter"], properties=["C05", "C06", "C01"],
          params={"b": "bytes", "offset": "int"}, variants=[{"b": "mmap"}],
          requires=[("enough_bytes", "0 <= offset <= len(b)"), ("byte_cells", "self._typecode == 'B'")],
          modifies=["self._bloom"],
          ensures=[("cells_are_the_first_bytes", "len(self._bloom) == offset and all(self._bloom[i] == b[i] for i in range(0, offset))")])
 
-contract("BloomFilter.frombytes", kind="classmethod", contexts=["BloomFilter"], properties=["C05", "C06"],
+contract("BloomFilter.frombytes", kind="classmethod", contexts=["BloomFilter"], properties=["C05", "C06", "C01"],
          params={"b": "bytes", "hash_function": "opt[hashfunc]"}, returns="obj:BloomFilter",
          requires=[r if not isinstance(r, tuple) else (r[0], r[1].replace("file", "b")) for r in _LOAD_REQ[:3]],
          modifies=[],
